@@ -45,6 +45,9 @@ PROP = {
     "trusted_base": ["modelled not verified: istructsmem event/record encoding, pipeline framework, sync actualizer, bus, "
                      "in-memory storage below kit.Wrap (C06)"],
     "assumptions": ["one command processor per partition (single writer)",
+                    "sync projectors are functions of the event alone (blind, idempotent write of rows determined by the "
+                    "event): the processor invokes the projectors of an event again on every re-apply (at-least-once), so a "
+                    "read-modify-write projector would count a re-applied event twice - outside the model and the claim",
                     "storage reads do not fail (faults are injected at write calls only)",
                     "a command names a record at most once (the real code merges two updates of one record; not generated)",
                     "updates address user records (IDs >= FirstUserRecordID); fewer than 2^64 - 200001 inserts per workspace",
